@@ -58,3 +58,8 @@ add("C09", "exploration",
     "Held on the executions explored: on stdio stdout, the Streamable GET stream, the POST SSE stream (notifications from several goroutines of one handler), the legacy SSE stream (with 2 ms keep-alives) and the stdio client's stdin, the reference readers recovered exactly the multiset of messages written, each frame one JSON value, for payloads with CR/LF/U+2028 and sizes around 4096 and 65536, with 2-16 concurrent writers.",
     "With the write locks in place at most one writer can be inside a frame; the gauges report how many were parked there. stdout of the in-process stdio server is an in-memory writer with atomic Write calls.",
     "DESIGN.md section 4 C09")
+add("C05", "exploration",
+    "runtime monitoring: raw peers per session log every frame with arrival index; senders log (nonce, target, return value); offline multiset / order / count checkers; adversarial peers post forged answers to guessed request ids; pending tables read through a verif hook at quiescence",
+    "Held on the executions explored: every successfully sent notification arrived exactly once, in per-sender order, on the addressed session's stream and on no other; broadcast / filtered counts equalled the streams that received the frame; ListRoots returned the roots of the session it was issued in although every other session posted a forged answer with the same id first; nothing stayed pending after answers, cancellations and time-outs (Streamable, legacy SSE, stdio).",
+    "Stream membership is fixed while a batch of broadcasts runs. Library clients as peers are covered by C10 / C07 / C08, not here.",
+    "DESIGN.md section 4 C05")
